@@ -95,11 +95,11 @@ fn extension_group(input: Input<'_>) -> ParserResult<'_, SequenceComponent> {
             SequenceComponent::Member(SequenceOrSetMember {
                 is_recursive: false,
                 name: String::from(INTERNAL_EXTENSION_GROUP_NAME_PREFIX)
-                    + members
+                    + &members
                         .first()
                         .map(|m| &m.name)
                         .or(components_of.first())
-                        .map_or("", String::as_str),
+                        .map_or(String::new(), |n| n.replace(".&", "-").replace('.', "-")),
                 tag: None,
                 ty: ASN1Type::Sequence(SequenceOrSet {
                     components_of,
